@@ -445,4 +445,45 @@ theorem rt_empty (u : Bytes → Bool) (t : CqlTy) (body : Bytes) (hw : wfVal u t
     · rw [decVal]; simp [pad, decNative, hu, CqlTy.isStringLike]
     · rw [decVal]; simp [pad, decNative, CqlTy.isStringLike]
 
+/-- A well-formed element's framed cell, split into length prefix and bare content. -/
+theorem wf_cell (u : Bytes → Bool) (t : CqlTy) (v : CqlVal) (c : Bytes) (hw : wfVal u t v = true)
+    (hc : encSpec t v true = .ok c) :
+    ∃ body, encSpec t v false = .ok body ∧ body.length ≤ i32Max ∧ c = be32 body.length ++ body :=
+  encSpec_cell t v c hc (wf_not_null u t v hw)
+
+theorem concatEnc_cons_ok {α : Type} (g : α → Except SerErr Bytes) (v : α) (vs : List α) (cells : Bytes)
+    (h : concatEnc g (v :: vs) = .ok cells) :
+    ∃ c r, g v = .ok c ∧ concatEnc g vs = .ok r ∧ cells = c ++ r := by
+  unfold concatEnc at h
+  cases hg : g v with
+  | error e => rw [hg] at h; cases h
+  | ok c =>
+    rw [hg] at h
+    simp only at h
+    cases hr : concatEnc g vs with
+    | error e => rw [hr] at h; cases h
+    | ok r => rw [hr] at h; cases h; exact ⟨c, r, rfl, rfl, rfl⟩
+
+theorem decSeq_rt (u : Bytes → Bool) (elt : CqlTy) (ih : RT u elt) :
+    ∀ (vs : List CqlVal) (cells rest : Bytes), (∀ x, x ∈ vs → wfVal u elt x = true) →
+      concatEnc (fun v => encSpec elt v true) vs = .ok cells → cells.length < 2 ^ 64 →
+      decSeq (fun b => decVal u elt b) vs.length (cells ++ rest) = .ok (vs.map (fun x => pad elt x)) := by
+  intro vs
+  induction vs with
+  | nil => intro cells rest _ h _; simp [decSeq]
+  | cons v vs ihs =>
+    intro cells rest hw h hlt
+    obtain ⟨c, r, hc, hr, rfl⟩ := concatEnc_cons_ok _ v vs cells h
+    have hwv := hw v List.mem_cons_self
+    obtain ⟨body, hb, hlen, rfl⟩ := wf_cell u elt v c hwv hc
+    have hl : body.length < 2 ^ 64 ∧ r.length < 2 ^ 64 := by
+      simp only [List.length_append] at hlt; omega
+    have e : be32 body.length ++ body ++ r ++ rest = be32 body.length ++ body ++ (r ++ rest) := by
+      simp [List.append_assoc]
+    simp only [List.length_cons, decSeq, e, readCqlBytes_cell body (r ++ rest) hlen]
+    rw [(ih v body hwv hb hl.1).1]
+    simp only
+    rw [ihs r rest (fun x hx => hw x (List.mem_cons_of_mem _ hx)) hr hl.2]
+    rfl
+
 end ScyllaVerif.Proofs.CodecDec
